@@ -9,7 +9,7 @@ sys.path.insert(0, VERIF)
 import check as C  # noqa: E402
 
 PROVED = {
-    'C01': 'every stage keeps the words of the text in order (lexer lossless; unknown-word merging and WITH grouping preserve the word concatenation) and the parser returns the literals of its symbol tokens in order',
+    'C01': 'every stage keeps the words of the text in order: the lexer is lossless; the simple tokenizer and, for every automaton, the automaton tokenizer tile the words of the text (each word inside exactly one token, in order); unknown-word merging and WITH grouping preserve the tiling (C01_tokens); the parser returns the literals of its symbol tokens in order (C01_literals)',
     'C02': 'the stack machine that models boolean.py\'s parser (with the pair checks of check_tokens_sequence) returns, for every token list derivable from the grammar Prim/AndP/OrP, the tree the derivation denotes (C02_tree), for all operator mixes, depths, arities and redundant parentheses',
     'C03': 'on every token list the parser model returns a tree or a proper parse error, never a crash outcome (C03_no_crash), and every accepted token list has balanced parentheses and only valid adjacent pairs',
     'C04': 'the lexer does not depend on the amount or kind of blanks between words (words of a re-spaced text are the same words), and the leftmost of the longest matches always survives selection',
@@ -25,7 +25,7 @@ PROVED = {
     'C14': 'the order-dependent seen_aliases bookkeeping flags a table exactly when some alias is bound to two different keys, whatever the order of the entries (C14_flag_iff_clash, C14_perm)',
     'C15': 'for any index, the loaders keep exactly the non-deprecated entries (with an SPDX key for SPDX) and map the fields as stated',
     'C16': 'the longest-node-suffix invariant of the search loop, the BFS failure-link recurrence, and the failure chain enumerate exactly the stored names that end at each position (C16_outputs)',
-    'C17': 'on the regenerated Token predicates: the overlap sweep returns pairwise disjoint tokens in text order (C17_ordered_disjoint) and keeps the leftmost of the longest matches (C17_leftmost_longest); lexer pieces are exact slices (C17_slice)',
+    'C17': 'on the regenerated Token predicates: the overlap sweep returns pairwise disjoint tokens in text order (C17_ordered_disjoint) and keeps the leftmost of the longest matches (C17_leftmost_longest); for every automaton and text the final tokens are ordered, disjoint, start and end on word boundaries and cover every word exactly once (C17_cover, C17_once); lexer pieces are exact slices (C17_slice)',
     'C18': 'with one-word keys and no aliases the simple tokenizer classifies every word like the automaton does',
     'C19': 'a pure function of (table, input): the cached automaton is a function of the table alone, so any history of calls leaves every answer equal to the fresh one',
     'C20': 'under every schedule of any number of threads, every thread that finishes has tokenized with a complete, finalised automaton built from the whole table (C20_safe); the pre-repair protocol has a racing schedule (decided)',
